@@ -44,7 +44,7 @@ Theorem C17_options_filter_and_order :
   forall (N : Num) s ncx y (o : opts N) out,
     budget N s ncx y o = Ok out ->
     exists rows p n srt,
-      gather N false s ncx y o = Ok rows /\ Permutation srt (filter p rows) /\ out = firstn n srt.
+      gather N s ncx y o = Ok rows /\ Permutation srt (filter p rows) /\ out = firstn n srt.
 Proof. exact budget_filters_and_orders. Qed.
 Print Assumptions C17_options_filter_and_order.
 
@@ -52,14 +52,14 @@ Theorem C17_options_filter_and_order_components :
   forall (N : Num) s ncx y (o : opts N) out,
     components N s ncx y o = Ok out ->
     exists rows p n srt,
-      gather N true s ncx y o = Ok rows /\ Permutation srt (filter p (map (unlabel N) rows)) /\ out = firstn n srt.
+      gather N s ncx y o = Ok rows /\ Permutation srt (filter p (map (unlabel N) rows)) /\ out = firstn n srt.
 Proof. exact components_filters_and_orders. Qed.
 Print Assumptions C17_options_filter_and_order_components.
 
 Theorem C17_rows_do_not_depend_on_options :
-  forall (N : Num) cb s ncx y (o o' : opts N),
+  forall (N : Num) s ncx y (o o' : opts N),
     o_infl o = o_infl o' -> o_interm o = o_interm o' ->
-    gather N cb s ncx y o = gather N cb s ncx y o'.
+    gather N s ncx y o = gather N s ncx y o'.
 Proof. exact gather_options_irrelevant. Qed.
 Print Assumptions C17_rows_do_not_depend_on_options.
 
@@ -117,13 +117,14 @@ Print Assumptions C17_real_intermediate.
 
 (* (6) complex y, default mode, under the pairing invariant (both components of every complex
    influence present, the imaginary one right after the real one in the merged key list): one
-   row per real influence and ONE row per complex influence, u = u_bar of the block of values
-   of the INDEPENDENT component vectors (see C17_complex_dependent_zero_refuted) *)
+   row per real influence and ONE row per complex influence, u = u_bar of the block of
+   components of uncertainty [cval] -- independent and dependent influences alike (the
+   restriction to independent influences fell with the repair of C17-dependent-zero) *)
 Theorem C17_complex :
   forall (s : KTypes.state R) ncx (yre yim : KTypes.ureal R) t m k rv,
     wf_real s yre -> wf_real s yim ->
     paired s (Vector.keys (N:=RNum) (ext_re RNum yre yim)) ->
-    exists rows, gather RNum false s ncx (@YComplex RNum yre yim) (default_opts t m k rv) = Ok rows /\
+    exists rows, gather RNum s ncx (@YComplex RNum yre yim) (default_opts t m k rv) = Ok rows /\
                  crows s yre yim (Vector.keys (N:=RNum) (ext_re RNum yre yim)) rows.
 Proof. exact complex_budget_paired. Qed.
 Print Assumptions C17_complex.
@@ -141,30 +142,39 @@ Theorem C17_complex_both_present :
   forall (s : KTypes.state R) ncx (yre yim : KTypes.ureal R) t m k rv,
     wf_real s yre -> wf_real s yim -> cplx_inv s ->
     both_present s (Vector.keys (N:=RNum) (ext_re RNum yre yim)) ->
-    exists rows, gather RNum false s ncx (@YComplex RNum yre yim) (default_opts t m k rv) = Ok rows /\
+    exists rows, gather RNum s ncx (@YComplex RNum yre yim) (default_opts t m k rv) = Ok rows /\
                  crows s yre yim (Vector.keys (N:=RNum) (ext_re RNum yre yim)) rows.
 Proof. exact complex_budget_present. Qed.
 Print Assumptions C17_complex_both_present.
 
-(* ... and for independent leaves the values used are the components of uncertainty, so the
-   row is u_bar(u_component(y, influence)) as UncertainComplex.u_component defines it *)
+(* ... and that block is exactly UncertainComplex.u_component(y, influence), for every leaf of a
+   well-formed y: each row is u_bar(u_component(y, influence)) *)
+Theorem C17_cval_is_u_component :
+  forall (s : KTypes.state R) (y x : KTypes.ureal R) k l,
+    wf_real s y -> unode x = LeafRef k -> leaf_of RNum s k = Ok l ->
+    u_component RNum s y x = Ok (cval y k).
+Proof. exact cval_is_u_component. Qed.
+Print Assumptions C17_cval_is_u_component.
+
 Theorem C17_complex_row_is_ubar_of_u_component_real :
   forall (s : KTypes.state R) (yre yim x : KTypes.ureal R) k l,
-    unode x = LeafRef k -> leaf_of RNum s k = Ok l -> l_indep l = true ->
-    ucomp_c RNum s yre yim (@IReal RNum x) = Ok (vget RNum (uc yre) k, 0, vget RNum (uc yim) k, 0).
-Proof. exact ucomp_c_real_indep. Qed.
+    wf_real s yre -> wf_real s yim ->
+    unode x = LeafRef k -> leaf_of RNum s k = Ok l ->
+    ucomp_c RNum s yre yim (@IReal RNum x) = Ok (cval yre k, 0, cval yim k, 0).
+Proof. exact ucomp_c_real. Qed.
 Print Assumptions C17_complex_row_is_ubar_of_u_component_real.
 
 Theorem C17_complex_row_is_ubar_of_u_component_complex :
   forall (s : KTypes.state R) (yre yim xr xi : KTypes.ureal R) lb a b la lb',
+    wf_real s yre -> wf_real s yim ->
     unode xr = LeafRef a -> unode xi = LeafRef b ->
-    leaf_of RNum s a = Ok la -> l_indep la = true -> leaf_of RNum s b = Ok lb' -> l_indep lb' = true ->
+    leaf_of RNum s a = Ok la -> leaf_of RNum s b = Ok lb' ->
     ucomp_c RNum s yre yim (@IComplex RNum xr xi lb) =
-    Ok (vget RNum (uc yre) a, vget RNum (uc yre) b, vget RNum (uc yim) a, vget RNum (uc yim) b).
-Proof. exact ucomp_c_complex_indep. Qed.
+    Ok (cval yre a, cval yre b, cval yim a, cval yim b).
+Proof. exact ucomp_c_complex. Qed.
 Print Assumptions C17_complex_row_is_ubar_of_u_component_complex.
 
-(* ---------- the full statement is false of the faithful model: three known findings ---------- *)
+(* ---------- the full statement is false of the faithful model: two known findings ---------- *)
 (* #13 partial use of a complex input: z.real is paired with the next influence x, x is dropped *)
 Theorem C17_complex_partial_use_refuted :
   exists out,
@@ -186,24 +196,40 @@ Theorem C17_real_complex_influence_refuted :
 Proof. exact real_complex_influence_two_rows. Qed.
 Print Assumptions C17_real_complex_influence_refuted.
 
-(* #15 components(complex y, intermediate=True) with a real intermediate: AttributeError *)
-Theorem C17_components_intermediate_refuted :
-  (exists out, budget RNum st_n [] (@YComplex RNum yre_n yim_n) interm_opts = Ok out /\
-               map r_uid out = [UInterm n1]) /\
-  components RNum st_n [] (@YComplex RNum yre_n yim_n) interm_opts = Err AttributeError.
-Proof. exact components_intermediate_real_node_refuted. Qed.
-Print Assumptions C17_components_intermediate_refuted.
+(* ---------- repaired defects: the statements their _refuted lemmas were blocking ---------- *)
+(* former #15 (fix: ir_0.uid): components() returns budget's rows (labels dropped, trimmed, sorted,
+   truncated) for EVERY number instance, y and mode, and raises exactly when those rows cannot
+   be built; the former witness (complex y with a real intermediate) now yields its row *)
+Theorem C17_components_rows_are_budget_rows :
+  forall (N : Num) s ncx y (o : opts N) rows,
+    gather N s ncx y o = Ok rows ->
+    components N s ncx y o =
+    Ok (cut_rows N (o_max o) (isort N (before_u N true) (trim_rows N (o_trim o) (map (unlabel N) rows)))).
+Proof. exact components_rows_are_budget_rows. Qed.
+Print Assumptions C17_components_rows_are_budget_rows.
 
-(* #28 (found by this development) a dependent influence is reported with u = 0 by the default
-   complex budget although its component of uncertainty is 1 *)
-Theorem C17_complex_dependent_zero_refuted :
+Theorem C17_components_raises_iff_rows_raise :
+  forall (N : Num) s ncx y (o : opts N) e,
+    components N s ncx y o = Err e <-> gather N s ncx y o = Err e.
+Proof. exact components_raises_iff_budget_rows_raise. Qed.
+Print Assumptions C17_components_raises_iff_rows_raise.
+
+Theorem C17_components_intermediate_real_node :
+  exists out, components RNum st_n [] (@YComplex RNum yre_n yim_n) interm_opts = Ok out /\
+              map r_uid out = [UInterm n1] /\ map r_u out = [ubar_R 2 0 4 0].
+Proof. exact components_intermediate_real_node. Qed.
+Print Assumptions C17_components_intermediate_real_node.
+
+(* former C17-dependent-zero (fix: merge_vectors(u, d) before extending): C17_complex above now
+   covers dependent influences; the former witness y = (1+1j)*x, x dependent, reports u_bar = 1 *)
+Theorem C17_complex_dependent_reported :
   exists r,
     wf_real st_d yre_d /\ wf_real st_d yim_d /\
     comp_is st_d yre_d k3 1 /\ comp_is st_d yim_d k3 1 /\
     budget RNum st_d [] (@YComplex RNum yre_d yim_d) cplx_opts = Ok [r] /\
-    r_uid r = UElem k3 /\ r_u r = 0.
-Proof. exact complex_dependent_zero_refuted. Qed.
-Print Assumptions C17_complex_dependent_zero_refuted.
+    r_uid r = UElem k3 /\ r_u r = ubar_R 1 0 1 0 /\ r_u r = 1.
+Proof. exact complex_dependent_reported. Qed.
+Print Assumptions C17_complex_dependent_reported.
 
 (* ---------- non-vacuity ---------- *)
 (* the hypotheses of (1), (2) are met by y = z.real + z.imag in the session {z, x}; the budget
@@ -223,7 +249,7 @@ Qed.
 Example C17_complex_nonvacuous :
   wf_real st_zx yre_f /\ wf_real st_zx yim_f /\
   paired st_zx (Vector.keys (N:=RNum) (ext_re RNum yre_f yim_f)) /\
-  exists rows, gather RNum false st_zx [] (@YComplex RNum yre_f yim_f) (default_opts 0 None None true) = Ok rows /\
+  exists rows, gather RNum st_zx [] (@YComplex RNum yre_f yim_f) (default_opts 0 None None true) = Ok rows /\
                map r_uid rows = [UPair (UElem k1) (UElem k2); UElem k3].
 Proof. exact complex_nonvacuous. Qed.
 
